@@ -87,6 +87,27 @@ Theorem C16_decrypt_sound :
 Proof. exact decrypt_sound. Qed.
 Print Assumptions C16_decrypt_sound.
 
+(* ---- every alteration is refused, for an ideal MAC and hash.  The two idealisations (a tag determines what
+        was authenticated; the hash is injective) are premises of THIS theorem only: they are false of any real
+        128-bit tag, which is exactly the residual risk C16_decrypt_sound leaves. ---- *)
+Theorem C16_tamper_rejected_ideal :
+  forall (sha : list Z -> list Z) (gcm_dec : list Z -> list Z -> list Z -> list Z)
+         (gcm_tag : list Z -> list Z -> list Z -> list Z -> list Z)
+         (gcm_ok : list Z -> list Z -> list Z -> list Z -> list Z -> bool),
+  (forall k iv a c t, gcm_ok k iv a c t = true -> t = gcm_tag k iv a c) ->
+  (forall k iv a c k' iv' a' c', gcm_tag k iv a c = gcm_tag k' iv' a' c' -> k = k' /\ iv = iv' /\ a = a' /\ c = c') ->
+  (forall x y, sha x = sha y -> x = y) ->
+  forall hdr attrs key iv aad ct file' key' aad' p,
+  header_opens hdr attrs -> sealed_attrs sha attrs key iv -> iv <> [] ->
+  open_decrypt sha gcm_dec gcm_ok true file' key' aad' = Ok p ->
+  let tag := gcm_tag key iv (hdr ++ aad) ct in
+  (stored_tag file' = Some tag ->
+     stored_header file' = hdr /\ stored_ct file' = ct /\ aad' = aad /\ key' = key) /\
+  (stored_header file' = hdr ->
+     key' = key /\ (stored_ct file' = ct -> aad' = aad -> stored_tag file' = Some tag)).
+Proof. exact tamper_rejected. Qed.
+Print Assumptions C16_tamper_rejected_ideal.
+
 (* ---- progress: the model never needs more fuel (every outcome is "returns" or "raises") ---- *)
 Theorem C16_no_fuel :
   forall sha gcm_dec gcm_ok verify file key aad, open_decrypt sha gcm_dec gcm_ok verify file key aad <> Fuel.
